@@ -1,28 +1,18 @@
-"""MANIFEST setup_cmd: build every flavour from files on disk, offline."""
+"""MANIFEST setup_cmd: build every flavour from files on disk, offline, so that the first
+check after a fresh restore does not pay for cold builds."""
 import os
 import subprocess
 import sys
+import time
 
 VERIF = os.path.dirname(os.path.dirname(os.path.abspath(__file__)))
-ENV = dict(os.environ, CARGO_NET_OFFLINE="true", CARGO_TERM_COLOR="never")
-
-
-def sh(cmd, cwd, env=None, fatal=True):
-    e = dict(ENV)
-    if env:
-        e.update(env)
-    print("+", " ".join(cmd), "(cwd=%s)" % cwd, flush=True)
-    p = subprocess.run(cmd, cwd=cwd, env=e)
-    if p.returncode != 0 and fatal:
-        print("setup step failed:", cmd, file=sys.stderr)
-        sys.exit(1)
-    return p.returncode
 
 
 def main():
-    h = os.path.join(VERIF, "harness")
-    sh(["cargo", "build", "--release"], h)
-    return 0
+    t0 = time.time()
+    p = subprocess.run([sys.executable, os.path.join(VERIF, "bin", "check"), "warm"], cwd=VERIF)
+    print("setup finished in %.0f s (rc=%d)" % (time.time() - t0, p.returncode), flush=True)
+    return p.returncode
 
 
 if __name__ == "__main__":
